@@ -374,3 +374,27 @@ def check_lookahead_on_demand(ctx, rep):
         else:
             rep.bad("T-LOOKAHEAD", "T-LOOKAHEAD:" + key, b.where(bi), "the failure of %s (end of input included) is propagated with `?` although no byte seen so far rules a plain Number out: a complete Number at the end of the input is reported as an error" % last)
     return n
+
+
+
+def check_exponent_reader(ctx, rep):
+    """both digit sequences of a number - mantissa and exponent - are read by the same reader (the one that knows the `_` separator
+    and reports malformed digits): parse_exponent has no digit loop of its own. Sibling agreement inside one token"""
+    from vlib import mir
+    from vlib.mir import strip_generics
+
+    prog = ctx.prog
+    b = prog.get("haystack::encoding::zinc::decode::scalar::number::parse_exponent")
+    pn = prog.get("haystack::encoding::zinc::decode::scalar::number::parse_number")
+    if b is None or pn is None:
+        rep.gap("parse_exponent", "-", "not found")
+        return 0
+    def readers(x):
+        return sorted({strip_generics(mir.callee_name(t) or "").split("::")[-1] for _bi, t in x.calls() if strip_generics(mir.callee_name(t) or "").split("::")[-1].startswith("parse_decimal")})
+    loops = [scc for scc in b.sccs() if len(scc) > 1]
+    rm, re_ = readers(pn), readers(b)
+    if re_ and re_ == rm and not loops:
+        rep.ok("T-SPEC", "number:exponent-read-like-mantissa", b.where(), "mantissa and exponent digits both come from %s" % re_)
+    else:
+        rep.bad("T-SPEC", "T-SPEC:number:exponent-read-like-mantissa", b.where(), "the exponent digits are read by %s (own loop: %s) while the mantissa is read by %s: spellings the grammar allows in both places (`_` separators) are accepted in one and refused in the other" % (re_ or "no digit reader", bool(loops), rm))
+    return 1
